@@ -1078,12 +1078,8 @@ Definition simple_name (n : nameref) : bool := match n with NStr _ | NVar _ => t
 Definition zone_ok (n : nameref) (a : rval) (b : option rval) : bool :=
   simple_name n && plain_rval mt a && match b with Some b' => plain_rval mt b' | None => true end.
 Definition opt_plain (b : option rval) : bool := match b with Some b' => plain_rval mt b' | None => true end.
-Definition inline_ok (n : nameref) (rows cols : span) : bool :=
-  simple_name n &&
-  match rows, cols with
-  | Some (a, ob), Some (c, oc) => plain_rval mt a && opt_plain ob && plain_rval mt c && opt_plain oc
-  | _, _ => false
-  end.
+Definition span_plain (sp : span) : bool := match sp with Some (a, ob) => plain_rval mt a && opt_plain ob | None => true end.
+Definition inline_ok (n : nameref) (rows cols : span) : bool := simple_name n && span_plain rows && span_plain cols.
 (* (a zone range or a matrix range is an operand of `set` only: c = the command is a colour command) *)
 Definition simple_opnd (c : bool) (o : opnd) : bool :=
   match o with
@@ -1440,6 +1436,79 @@ Proof.
   intros r R1 R2 R3 R4. unfold sB, sA. rewrite (put_reg_other _ l2 _ _ r R4), (put_reg_other _ f2 _ _ r R3), (put_reg_other _ l1 _ _ r R2), (put_reg_other _ f1 _ _ r R1). reflexivity.
 Qed.
 
+Lemma eval_rval_plain_pure v : plain_rval mt v = true -> forall fuel ss x s1, eval_rval rt mt fuel false ss v = ROk x s1 -> s1 = ss.
+Proof.
+  intros Hp fuel ss x s1 He. destruct fuel as [|fuel]; [destruct v; discriminate|]. rewrite eval_rval_S in He.
+  destruct v as [l|l|m|m|y|r|e|g args]; cbn [plain_rval] in Hp; try discriminate.
+  - injection He as _ <-. reflexivity.
+  - destruct (neg_value (lit_value l)); cbn [lift_res] in He; [injection He as _ <-; reflexivity|discriminate].
+  - injection He as _ <-. reflexivity.
+  - destruct (neg_value (macro mt m)); cbn [lift_res] in He; [injection He as _ <-; reflexivity|discriminate].
+  - injection He as _ <-. reflexivity.
+  - injection He as _ <-. reflexivity.
+  - apply andb_true_iff in Hp. destruct Hp as [Hs _]. exact (proj1 (eval_expr_ok rt mt e Hs fuel false ss x s1 He)).
+Qed.
+
+(* a range clause that may be absent: its code, and the code that puts None into the registers of an absent clause *)
+Definition span_code (sp : span) (f l : register) : program := match sp with Some p => c_range rt mt p f l | None => [] end.
+Definition dflt_code (sp : span) (f l : register) : program :=
+  match sp with None => [I2 OC_MOVEQ PNone (PReg f); I2 OC_MOVEQ PNone (PReg l)] | Some _ => [] end.
+Lemma c_spans_parts rows cols (rf : bool) : c_spans rt mt rows cols rf =
+  [I2 OC_MOVEQ (POperand OD_MATRIX) (PReg R_OPERAND)] ++
+  (if rf then span_code rows R_FIRST_ROW R_LAST_ROW ++ span_code cols R_FIRST_COLUMN R_LAST_COLUMN
+   else span_code cols R_FIRST_COLUMN R_LAST_COLUMN ++ span_code rows R_FIRST_ROW R_LAST_ROW) ++
+  dflt_code rows R_FIRST_ROW R_LAST_ROW ++ dflt_code cols R_FIRST_COLUMN R_LAST_COLUMN.
+Proof. destruct rows as [[a ob]|], cols as [[c oc]|]; reflexivity. Qed.
+
+Definition pair_after (s s' : mstate) (f l : register) (p : option (value * value)) : Prop :=
+  match p with
+  | Some (x, y) => rf_get (m_regs s') f = Some x /\ rf_get (m_regs s') l = Some y
+  | None => rf_get (m_regs s') f = rf_get (m_regs s) f /\ rf_get (m_regs s') l = rf_get (m_regs s) l
+  end.
+Definition seg_result (im : image) (ss : sstate) (s : mstate) (K : program) (f l : register) (p : option (value * value)) : Prop :=
+  exists n s', esteps n im s = Some (s', []) /\ sim ss s' /\ m_pc s' = m_pc s + zlength K /\ m_stack s' = m_stack s /\ m_frames s' = m_frames s /\
+               pair_after s s' f l p /\
+               (forall r, register_eqb r f = false -> register_eqb r l = false -> rf_get (m_regs s') r = rf_get (m_regs s) r).
+
+Lemma span_seg f l sp : visible f = false -> writable f = true -> register_eqb R_DISC_FORWARD f = false ->
+  visible l = false -> writable l = true -> register_eqb R_DISC_FORWARD l = false -> register_eqb f l = false -> span_plain sp = true ->
+  forall im ss s fuel p sa, sim ss s -> code_at im (m_pc s) (span_code sp f l) -> eval_span rt mt (S fuel) false ss sp = ROk p sa ->
+  sa = ss /\ seg_result im ss s (span_code sp f l) f l (match sp with Some _ => Some p | None => None end).
+Proof.
+  intros Hv1 Hw1 Hd1 Hv2 Hw2 Hd2 Nfl Hpl im ss s fuel p sa Hsim Hc Ep. destruct sp as [[a ob]|]; cbn [span_plain span_code] in *.
+  - apply andb_true_iff in Hpl. destruct Hpl as [Hpa Hpob]. rewrite eval_span_S in Ep.
+    destruct (eval_rval rt mt fuel false ss a) as [x s1|e s1|s1] eqn:Ea; cbn [sbind] in Ep; try discriminate.
+    destruct (match ob with Some b => eval_rval rt mt fuel false s1 b | None => ROk VNone s1 end) as [y s2|e s2|s2] eqn:Eb; cbn [sbind] in Ep; try discriminate.
+    injection Ep as <- <-.
+    destruct (range_runs f l a ob Hv1 Hw1 Hd1 Hv2 Hw2 Hd2 Hpa Hpob im ss s fuel x y s1 s2 Hsim Hc Ea Eb) as [Hs1 [Hs2 [n1 E1]]]. subst s1 s2.
+    split; [reflexivity|]. eexists n1, _. split; [exact E1|].
+    split; [apply sim_put_reg_hidden; [apply sim_put_reg_hidden; assumption|assumption|assumption]|].
+    split; [cbn [put_vm m_pc]; unfold c_range, zlength, range_end; cbn [fst snd]; rewrite app_length, Nat2Z.inj_add; destruct ob; lia|].
+    split; [reflexivity|]. split; [reflexivity|].
+    split; [split; [rewrite (put_reg_other _ l _ _ f Nfl); apply put_reg_same|apply put_reg_same]|].
+    intros r R1 R2. rewrite (put_reg_other _ l _ _ r R2), (put_reg_other _ f _ _ r R1). reflexivity.
+  - destruct fuel; injection Ep as <- <-; (split; [reflexivity|]); exists 0%nat, s; (split; [reflexivity|]); (split; [exact Hsim|]);
+      (split; [unfold zlength; cbn; lia|]); repeat split; reflexivity.
+Qed.
+
+Lemma dflt_seg f l sp : visible f = false -> writable f = true -> register_eqb R_DISC_FORWARD f = false ->
+  visible l = false -> writable l = true -> register_eqb R_DISC_FORWARD l = false -> register_eqb f l = false ->
+  forall im ss s, sim ss s -> code_at im (m_pc s) (dflt_code sp f l) ->
+  seg_result im ss s (dflt_code sp f l) f l (match sp with None => Some (VNone, VNone) | Some _ => None end).
+Proof.
+  intros Hv1 Hw1 Hd1 Hv2 Hw2 Hd2 Nfl im ss s Hsim Hc. destruct sp as [p0|]; cbn [dflt_code] in *.
+  - exists 0%nat, s. split; [reflexivity|]. split; [exact Hsim|]. split; [unfold zlength; cbn; lia|]. repeat split; reflexivity.
+  - cbn [code_at] in Hc. destruct Hc as [Hf1 [Hf2 _]].
+    destruct (load_hidden im ss s PNone f VNone Hsim Hv1 Hd1 Hw1 eq_refl Hf1) as [E1 Hs1].
+    set (s1 := put_vm s (DReg f) VNone 1) in *.
+    assert (Hf2' : fetch im (m_pc s1) = Some (I2 OC_MOVEQ PNone (PReg l))) by (unfold s1; cbn [put_vm m_pc]; replace (m_pc s + 1) with (m_pc s + Z.of_nat 1) by lia; exact Hf2).
+    destruct (load_hidden im ss s1 PNone l VNone Hs1 Hv2 Hd2 Hw2 eq_refl Hf2') as [E2 Hs2].
+    eexists 2%nat, _. split; [change 2%nat with (1 + 1)%nat; replace (@nil event) with (@nil event ++ @nil event) by reflexivity; eapply esteps_app; eassumption|].
+    split; [exact Hs2|]. split; [unfold s1; cbn [put_vm m_pc]; unfold zlength; cbn [length]; lia|]. split; [reflexivity|]. split; [reflexivity|].
+    split; [split; [unfold s1; rewrite (put_reg_other _ l _ _ f Nfl); apply put_reg_same|apply put_reg_same]|].
+    intros r R1 R2. unfold s1. rewrite (put_reg_other _ l _ _ r R2), (put_reg_other _ f _ _ r R1). reflexivity.
+Qed.
+
 Lemma matrix_begin_is_set w name : exists v, forall rf, do_matrix_begin rf w name = rf_set rf R_MATRIX v.
 Proof.
   unfold do_matrix_begin. destruct (match as_name name with Some n0 => _ | None => _ end) as [h wd]. eexists. intros rf. reflexivity.
@@ -1450,9 +1519,7 @@ Lemma sim_one_inline n rows cols rows_first im ss s ss1 fuel : inline_ok n rows 
   exists k s1 evs, esteps k im s = Some (s1, evs) /\ sim ss1 s1 /\ m_pc s1 = m_pc s + zlength (inline_code n rows cols rows_first) /\
                    (m_stack s1, fr s1) = (m_stack s, fr s) /\ rev (s_trace ss1) = rev (s_trace ss) ++ evs.
 Proof.
-  intros Hok Hsim Hc He. unfold inline_ok in Hok. apply andb_true_iff in Hok. destruct Hok as [Hnm Hsp].
-  destruct rows as [[a ob]|]; [|discriminate]. destruct cols as [[c oc]|]; [|discriminate].
-  apply andb_true_iff in Hsp. destruct Hsp as [Hsp Hpoc]. apply andb_true_iff in Hsp. destruct Hsp as [Hsp Hpc]. apply andb_true_iff in Hsp. destruct Hsp as [Hpa Hpob].
+  intros Hok Hsim Hc He. unfold inline_ok in Hok. apply andb_true_iff in Hok. destruct Hok as [Hok Hpcs]. apply andb_true_iff in Hok. destruct Hok as [Hnm Hprs].
   destruct fuel as [|fuel]; [discriminate|]. rewrite exec_operand_inline in He. cbv zeta in He.
   set (name := name_of mt ss n) in *.
   set (ss0 := s_with_regs ss (do_matrix_begin (s_regs ss) (s_world ss) name)) in *.
@@ -1462,12 +1529,14 @@ Proof.
   assert (Hzn : zlength (c_name mt n) = 1) by (destruct n; reflexivity). rewrite Hzn in Hc.
   apply code_at_app in Hc. destruct Hc as [Hmx Hc]. cbn [code_at] in Hmx. destruct Hmx as [Hfm _]. rewrite zlength1 in Hc.
   apply code_at_app in Hc. destruct Hc as [Hsp Hc].
-  set (R := c_range rt mt (a, ob) R_FIRST_ROW R_LAST_ROW) in *. set (C := c_range rt mt (c, oc) R_FIRST_COLUMN R_LAST_COLUMN) in *.
-  assert (Hspans : c_spans rt mt (Some (a, ob)) (Some (c, oc)) rows_first = [I2 OC_MOVEQ (POperand OD_MATRIX) (PReg R_OPERAND)] ++ (if rows_first then R ++ C else C ++ R)).
-  { unfold c_spans. rewrite !app_nil_r. reflexivity. }
+  set (K1 := if rows_first then span_code rows R_FIRST_ROW R_LAST_ROW else span_code cols R_FIRST_COLUMN R_LAST_COLUMN) in *.
+  set (K2 := if rows_first then span_code cols R_FIRST_COLUMN R_LAST_COLUMN else span_code rows R_FIRST_ROW R_LAST_ROW) in *.
+  set (K3 := dflt_code rows R_FIRST_ROW R_LAST_ROW) in *. set (K4 := dflt_code cols R_FIRST_COLUMN R_LAST_COLUMN) in *.
+  assert (Hspans : c_spans rt mt rows cols rows_first = [I2 OC_MOVEQ (POperand OD_MATRIX) (PReg R_OPERAND)] ++ ((K1 ++ K2) ++ K3 ++ K4)).
+  { rewrite c_spans_parts. unfold K1, K2, K3, K4. destruct rows_first; rewrite <- ?app_assoc; reflexivity. }
   rewrite Hspans in *. apply code_at_app in Hsp. destruct Hsp as [Hop Hrc]. cbn [code_at] in Hop. destruct Hop as [Hfo _]. rewrite zlength1 in Hrc.
-  set (kRC := zlength (if rows_first then R ++ C else C ++ R)) in *.
-  assert (HkS : zlength ([I2 OC_MOVEQ (POperand OD_MATRIX) (PReg R_OPERAND)] ++ (if rows_first then R ++ C else C ++ R)) = 1 + kRC)
+  set (kRC := zlength ((K1 ++ K2) ++ K3 ++ K4)) in *.
+  assert (HkS : zlength ([I2 OC_MOVEQ (POperand OD_MATRIX) (PReg R_OPERAND)] ++ ((K1 ++ K2) ++ K3 ++ K4)) = 1 + kRC)
     by (unfold kRC, zlength; rewrite app_length, Nat2Z.inj_add; reflexivity).
   rewrite HkS in Hc. apply code_at_app in Hc. destruct Hc as [Hce Hc]. cbn [code_at] in Hce, Hc. destruct Hce as [Hfc1 [Hfend _]]. destruct Hc as [Hfo2 [Hfc2 _]].
   (* the name, MATRIX *)
@@ -1492,30 +1561,82 @@ Proof.
   set (s3 := put_vm s2 (DReg R_OPERAND) (VOperand OD_MATRIX) 1) in *.
   assert (Hn3 : rf_get (m_regs s3) R_NAME = Some name) by (unfold s3; rewrite put_reg_other by reflexivity; exact Hn2).
   assert (Ho3 : rf_get (m_regs s3) R_OPERAND = Some (VOperand OD_MATRIX)) by apply put_reg_same.
-  assert (Hrc3 : code_at im (m_pc s3) (if rows_first then R ++ C else C ++ R)) by exact Hrc.
-  (* the two ranges, in the order written *)
-  assert (Hrun : exists r1 r2 c1 c2 n4 s4, eval_spans rt mt (S (S fuel)) false ss0 (Some (a, ob)) (Some (c, oc)) rows_first = ROk (r1, r2, c1, c2) ss0 /\
+  assert (Hrc3 : code_at im (m_pc s3) ((K1 ++ K2) ++ K3 ++ K4)) by exact Hrc.
+  apply code_at_app in Hrc3. destruct Hrc3 as [H12 H34]. apply code_at_app in H12. destruct H12 as [HK1 HK2]. apply code_at_app in H34. destruct H34 as [HK3 HK4].
+  (* the clauses in the order written, then None for an absent clause *)
+  assert (Hrun : exists r1 r2 c1 c2 n4 s4, eval_spans rt mt (S (S fuel)) false ss0 rows cols rows_first = ROk (r1, r2, c1, c2) ss0 /\
             esteps n4 im s3 = Some (s4, []) /\ sim ss0 s4 /\ m_pc s4 = m_pc s3 + kRC /\ m_stack s4 = m_stack s3 /\ m_frames s4 = m_frames s3 /\
             rf_get (m_regs s4) R_FIRST_ROW = Some r1 /\ rf_get (m_regs s4) R_LAST_ROW = Some r2 /\
             rf_get (m_regs s4) R_FIRST_COLUMN = Some c1 /\ rf_get (m_regs s4) R_LAST_COLUMN = Some c2 /\
             rf_get (m_regs s4) R_NAME = Some name /\ rf_get (m_regs s4) R_OPERAND = Some (VOperand OD_MATRIX)).
-  { destruct rows_first.
-    - destruct (eval_span rt mt (S fuel) false ss0 (Some (a, ob))) as [p sa|e sa|sa] eqn:Ep; cbn [sbind] in He; try discriminate.
-      destruct (eval_span rt mt (S fuel) false sa (Some (c, oc))) as [q sb|e sb|sb] eqn:Eq; cbn [sbind] in He; try discriminate.
-      destruct (two_ranges R_FIRST_ROW R_LAST_ROW R_FIRST_COLUMN R_LAST_COLUMN a ob c oc eq_refl eq_refl eq_refl eq_refl eq_refl eq_refl eq_refl eq_refl eq_refl eq_refl eq_refl eq_refl
-                  eq_refl eq_refl eq_refl eq_refl eq_refl eq_refl Hpa Hpob Hpc Hpoc im ss0 s3 fuel p q sa sb Hs3 Hrc3 Ep Eq)
-        as [Hsa [Hsb (n4 & s4 & E4 & Hs4 & Hpc4 & Hsk4 & Hfr4 & G1 & G2 & G3 & G4 & Goth)]]. subst sa sb.
-      exists (fst p), (snd p), (fst q), (snd q), n4, s4. split; [rewrite eval_spans_S, Ep; cbn [sbind]; rewrite Eq; reflexivity|]. split; [exact E4|]. split; [exact Hs4|]. split; [exact Hpc4|]. split; [exact Hsk4|]. split; [exact Hfr4|].
-      split; [exact G1|]. split; [exact G2|]. split; [exact G3|]. split; [exact G4|].
-      split; [rewrite (Goth R_NAME eq_refl eq_refl eq_refl eq_refl); exact Hn3|rewrite (Goth R_OPERAND eq_refl eq_refl eq_refl eq_refl); exact Ho3].
-    - destruct (eval_span rt mt (S fuel) false ss0 (Some (c, oc))) as [q sa|e sa|sa] eqn:Eq; cbn [sbind] in He; try discriminate.
-      destruct (eval_span rt mt (S fuel) false sa (Some (a, ob))) as [p sb|e sb|sb] eqn:Ep; cbn [sbind] in He; try discriminate.
-      destruct (two_ranges R_FIRST_COLUMN R_LAST_COLUMN R_FIRST_ROW R_LAST_ROW c oc a ob eq_refl eq_refl eq_refl eq_refl eq_refl eq_refl eq_refl eq_refl eq_refl eq_refl eq_refl eq_refl
-                  eq_refl eq_refl eq_refl eq_refl eq_refl eq_refl Hpc Hpoc Hpa Hpob im ss0 s3 fuel q p sa sb Hs3 Hrc3 Eq Ep)
-        as [Hsa [Hsb (n4 & s4 & E4 & Hs4 & Hpc4 & Hsk4 & Hfr4 & G1 & G2 & G3 & G4 & Goth)]]. subst sa sb.
-      exists (fst p), (snd p), (fst q), (snd q), n4, s4. split; [rewrite eval_spans_S, Eq; cbn [sbind]; rewrite Ep; reflexivity|]. split; [exact E4|]. split; [exact Hs4|]. split; [exact Hpc4|]. split; [exact Hsk4|]. split; [exact Hfr4|].
-      split; [exact G3|]. split; [exact G4|]. split; [exact G1|]. split; [exact G2|].
-      split; [rewrite (Goth R_NAME eq_refl eq_refl eq_refl eq_refl); exact Hn3|rewrite (Goth R_OPERAND eq_refl eq_refl eq_refl eq_refl); exact Ho3]. }
+  { assert (Hev : exists p q, eval_span rt mt (S fuel) false ss0 rows = ROk p ss0 /\ eval_span rt mt (S fuel) false ss0 cols = ROk q ss0 /\
+                              seg_result im ss0 s3 K1 (if rows_first then R_FIRST_ROW else R_FIRST_COLUMN) (if rows_first then R_LAST_ROW else R_LAST_COLUMN)
+                                (if rows_first then match rows with Some _ => Some p | None => None end else match cols with Some _ => Some q | None => None end) /\
+                              eval_spans rt mt (S (S fuel)) false ss0 rows cols rows_first = ROk (fst p, snd p, fst q, snd q) ss0).
+    { rewrite eval_spans_S. destruct rows_first.
+      - destruct (eval_span rt mt (S fuel) false ss0 rows) as [p sa|e sa|sa] eqn:Ep; cbn [sbind] in He; try discriminate.
+        destruct (span_seg R_FIRST_ROW R_LAST_ROW rows eq_refl eq_refl eq_refl eq_refl eq_refl eq_refl eq_refl Hprs im ss0 s3 fuel p sa Hs3 HK1 Ep) as [Hsa Hseg]. subst sa.
+        destruct (eval_span rt mt (S fuel) false ss0 cols) as [q sb|e sb|sb] eqn:Eq; cbn [sbind] in He; try discriminate.
+        assert (Hsb : sb = ss0).
+        { destruct cols as [[c oc]|]; [|destruct fuel; injection Eq as _ <-; reflexivity]. cbn [span_plain] in Hpcs. apply andb_true_iff in Hpcs. destruct Hpcs as [Hpc0 Hpoc].
+          rewrite eval_span_S in Eq. destruct (eval_rval rt mt fuel false ss0 c) as [x t1|e t1|t1] eqn:Ec; cbn [sbind] in Eq; try discriminate.
+          destruct (match oc with Some b => eval_rval rt mt fuel false t1 b | None => ROk VNone t1 end) as [y t2|e t2|t2] eqn:Ed; cbn [sbind] in Eq; try discriminate.
+          injection Eq as _ <-.
+          pose proof (eval_rval_plain_pure c Hpc0 fuel ss0 x t1 Ec) as H1. subst t1.
+          destruct oc as [b|]; [exact (eval_rval_plain_pure b Hpoc fuel ss0 y t2 Ed)|injection Ed as _ <-; reflexivity]. }
+        subst sb. exists p, q. split; [reflexivity|]. split; [reflexivity|]. split; [exact Hseg|]. cbn [sbind]. rewrite Eq. reflexivity.
+      - destruct (eval_span rt mt (S fuel) false ss0 cols) as [q sa|e sa|sa] eqn:Eq; cbn [sbind] in He; try discriminate.
+        destruct (span_seg R_FIRST_COLUMN R_LAST_COLUMN cols eq_refl eq_refl eq_refl eq_refl eq_refl eq_refl eq_refl Hpcs im ss0 s3 fuel q sa Hs3 HK1 Eq) as [Hsa Hseg]. subst sa.
+        destruct (eval_span rt mt (S fuel) false ss0 rows) as [p sb|e sb|sb] eqn:Ep; cbn [sbind] in He; try discriminate.
+        assert (Hsb : sb = ss0).
+        { destruct rows as [[c oc]|]; [|destruct fuel; injection Ep as _ <-; reflexivity]. cbn [span_plain] in Hprs. apply andb_true_iff in Hprs. destruct Hprs as [Hpc0 Hpoc].
+          rewrite eval_span_S in Ep. destruct (eval_rval rt mt fuel false ss0 c) as [x t1|e t1|t1] eqn:Ec; cbn [sbind] in Ep; try discriminate.
+          destruct (match oc with Some b => eval_rval rt mt fuel false t1 b | None => ROk VNone t1 end) as [y t2|e t2|t2] eqn:Ed; cbn [sbind] in Ep; try discriminate.
+          injection Ep as _ <-.
+          pose proof (eval_rval_plain_pure c Hpc0 fuel ss0 x t1 Ec) as H1. subst t1.
+          destruct oc as [b|]; [exact (eval_rval_plain_pure b Hpoc fuel ss0 y t2 Ed)|injection Ed as _ <-; reflexivity]. }
+        subst sb. exists p, q. split; [reflexivity|]. split; [reflexivity|]. split; [exact Hseg|]. cbn [sbind]. rewrite Ep. reflexivity. }
+    destruct Hev as (p & q & Ep & Eq & (nA & sA & EA & HsA & HpcA & HskA & HfrA & PA & OA) & Esp).
+    (* the second clause *)
+    assert (HK2A : code_at im (m_pc sA) K2) by (rewrite HpcA; exact HK2).
+    assert (HsegB : seg_result im ss0 sA K2 (if rows_first then R_FIRST_COLUMN else R_FIRST_ROW) (if rows_first then R_LAST_COLUMN else R_LAST_ROW)
+                      (if rows_first then match cols with Some _ => Some q | None => None end else match rows with Some _ => Some p | None => None end)).
+    { unfold K2 in *. destruct rows_first.
+      - exact (proj2 (span_seg R_FIRST_COLUMN R_LAST_COLUMN cols eq_refl eq_refl eq_refl eq_refl eq_refl eq_refl eq_refl Hpcs im ss0 sA fuel q ss0 HsA HK2A Eq)).
+      - exact (proj2 (span_seg R_FIRST_ROW R_LAST_ROW rows eq_refl eq_refl eq_refl eq_refl eq_refl eq_refl eq_refl Hprs im ss0 sA fuel p ss0 HsA HK2A Ep)). }
+    destruct HsegB as (nB & sB & EB & HsB & HpcB & HskB & HfrB & PB & OB).
+    assert (HK3B : code_at im (m_pc sB) K3).
+    { rewrite HpcB, HpcA. replace (m_pc s3 + zlength K1 + zlength K2) with (m_pc s3 + zlength (K1 ++ K2)); [exact HK3|]. unfold zlength. rewrite app_length, Nat2Z.inj_add. lia. }
+    destruct (dflt_seg R_FIRST_ROW R_LAST_ROW rows eq_refl eq_refl eq_refl eq_refl eq_refl eq_refl eq_refl im ss0 sB HsB HK3B) as (nC & sC & EC & HsC & HpcC & HskC & HfrC & PC & OC).
+    assert (HK4C : code_at im (m_pc sC) K4).
+    { rewrite HpcC, HpcB, HpcA. change (dflt_code rows R_FIRST_ROW R_LAST_ROW) with K3. replace (m_pc s3 + zlength K1 + zlength K2 + zlength K3) with (m_pc s3 + zlength (K1 ++ K2) + zlength K3); [exact HK4|]. unfold zlength. rewrite app_length, Nat2Z.inj_add. lia. }
+    destruct (dflt_seg R_FIRST_COLUMN R_LAST_COLUMN cols eq_refl eq_refl eq_refl eq_refl eq_refl eq_refl eq_refl im ss0 sC HsC HK4C) as (nD & sD & ED & HsD & HpcD & HskD & HfrD & PD & OD).
+    exists (fst p), (snd p), (fst q), (snd q), (nA + (nB + (nC + nD)))%nat, sD.
+    split; [exact Esp|].
+    split; [change (@nil event) with ([] ++ ([] ++ ([] ++ @nil event))); eapply esteps_app; [exact EA|eapply esteps_app; [exact EB|eapply esteps_app; [exact EC|exact ED]]]|].
+    split; [exact HsD|].
+    split; [rewrite HpcD, HpcC, HpcB, HpcA; unfold kRC, K3, K4, zlength; rewrite !app_length, !Nat2Z.inj_add; lia|].
+    split; [rewrite HskD, HskC, HskB, HskA; reflexivity|]. split; [rewrite HfrD, HfrC, HfrB, HfrA; reflexivity|].
+    (* the values of the four registers *)
+    assert (Hrowsv : rf_get (m_regs sD) R_FIRST_ROW = Some (fst p) /\ rf_get (m_regs sD) R_LAST_ROW = Some (snd p)).
+    { rewrite (OD R_FIRST_ROW eq_refl eq_refl), (OD R_LAST_ROW eq_refl eq_refl).
+      destruct rows as [sp|].
+      - cbn [pair_after] in PC. destruct PC as [PC1 PC2]. rewrite PC1, PC2. destruct rows_first.
+        + rewrite (OB R_FIRST_ROW eq_refl eq_refl), (OB R_LAST_ROW eq_refl eq_refl). destruct p as [x y]. exact PA.
+        + destruct p as [x y]. exact PB.
+      - destruct fuel; injection Ep as <-; exact PC. }
+    assert (Hcolsv : rf_get (m_regs sD) R_FIRST_COLUMN = Some (fst q) /\ rf_get (m_regs sD) R_LAST_COLUMN = Some (snd q)).
+    { destruct cols as [sp|].
+      - cbn [pair_after] in PD. destruct PD as [PD1 PD2]. rewrite PD1, PD2, (OC R_FIRST_COLUMN eq_refl eq_refl), (OC R_LAST_COLUMN eq_refl eq_refl). destruct rows_first.
+        + destruct q as [x y]. exact PB.
+        + rewrite (OB R_FIRST_COLUMN eq_refl eq_refl), (OB R_LAST_COLUMN eq_refl eq_refl). destruct q as [x y]. exact PA.
+      - destruct fuel; injection Eq as <-; exact PD. }
+    destruct Hrowsv as [G1 G2]. destruct Hcolsv as [G3 G4].
+    split; [exact G1|]. split; [exact G2|]. split; [exact G3|]. split; [exact G4|].
+    assert (Hkeep : forall r, register_eqb r R_FIRST_ROW = false -> register_eqb r R_LAST_ROW = false -> register_eqb r R_FIRST_COLUMN = false -> register_eqb r R_LAST_COLUMN = false ->
+                    rf_get (m_regs sD) r = rf_get (m_regs s3) r).
+    { intros r R1 R2 R3 R4. rewrite (OD r R3 R4), (OC r R1 R2). destruct rows_first; [rewrite (OB r R3 R4), (OA r R1 R2)|rewrite (OB r R1 R2), (OA r R3 R4)]; reflexivity. }
+    split; [rewrite (Hkeep R_NAME eq_refl eq_refl eq_refl eq_refl); exact Hn3|rewrite (Hkeep R_OPERAND eq_refl eq_refl eq_refl eq_refl); exact Ho3]. }
   destruct Hrun as (r1 & r2 & c1 & c2 & n4 & s4 & Esp & E4 & Hs4 & Hpc4 & Hsk4 & Hfr4 & G1 & G2 & G3 & G4 & Hn4 & Ho4).
   rewrite <- eval_spans_S in He. rewrite Esp in He. cbn [sbind] in He.
   (* COLOR: the stage *)
@@ -1562,7 +1683,7 @@ Proof.
   split.
   { rewrite Hpc8. unfold s7. cbn [put_vm m_pc]. rewrite Hpc6.
     match goal with |- _ = _ + zlength ?L => assert (Hlen : zlength L = 1 + 1 + (1 + kRC) + 2 + 2) end.
-    { unfold zlength in *. rewrite !app_length, !Nat2Z.inj_add. cbn [length]. unfold kRC, zlength. destruct n; cbn [c_name length]; lia. }
+    { unfold kRC, zlength. rewrite !app_length, !Nat2Z.inj_add. cbn [length]. destruct n; cbn [c_name length]; lia. }
     rewrite Hlen. lia. }
   split.
   { rewrite Hst8. unfold fr, s7, s6, s5. cbn [put_vm advance with_pc with_regs m_stack m_frames]. rewrite Hsk4, Hfr4. reflexivity. }
@@ -1929,12 +2050,16 @@ Proof.
 Qed.
 Lemma inline_no_routine n rows cols rf : inline_ok mt n rows cols = true -> forallb not_routine (inline_code rt mt n rows cols rf) = true.
 Proof.
-  intros Hok. unfold inline_ok in Hok. apply andb_true_iff in Hok. destruct Hok as [_ Hsp].
-  destruct rows as [[a ob]|]; [|discriminate]. destruct cols as [[c oc]|]; [|discriminate].
-  apply andb_true_iff in Hsp. destruct Hsp as [Hsp Hpoc]. apply andb_true_iff in Hsp. destruct Hsp as [Hsp Hpc]. apply andb_true_iff in Hsp. destruct Hsp as [Hpa Hpob].
-  pose proof (range_no_routine R_FIRST_ROW R_LAST_ROW a ob eq_refl eq_refl eq_refl eq_refl Hpa Hpob) as HR.
-  pose proof (range_no_routine R_FIRST_COLUMN R_LAST_COLUMN c oc eq_refl eq_refl eq_refl eq_refl Hpc Hpoc) as HC.
-  unfold inline_code, c_spans. cbn [fst snd]. rewrite !forallb_app. destruct rf; rewrite ?forallb_app, HR, HC; destruct n; cbn; reflexivity.
+  intros Hok. unfold inline_ok in Hok. apply andb_true_iff in Hok. destruct Hok as [Hok Hpcs]. apply andb_true_iff in Hok. destruct Hok as [_ Hprs].
+  assert (HR : forallb not_routine (span_code rt mt rows R_FIRST_ROW R_LAST_ROW) = true).
+  { destruct rows as [[a ob]|]; [|reflexivity]. cbn [span_plain] in Hprs. apply andb_true_iff in Hprs. destruct Hprs as [Hpa Hpob].
+    exact (range_no_routine R_FIRST_ROW R_LAST_ROW a ob eq_refl eq_refl eq_refl eq_refl Hpa Hpob). }
+  assert (HC : forallb not_routine (span_code rt mt cols R_FIRST_COLUMN R_LAST_COLUMN) = true).
+  { destruct cols as [[c oc]|]; [|reflexivity]. cbn [span_plain] in Hpcs. apply andb_true_iff in Hpcs. destruct Hpcs as [Hpc Hpoc].
+    exact (range_no_routine R_FIRST_COLUMN R_LAST_COLUMN c oc eq_refl eq_refl eq_refl eq_refl Hpc Hpoc). }
+  assert (HD : forallb not_routine (dflt_code rows R_FIRST_ROW R_LAST_ROW ++ dflt_code cols R_FIRST_COLUMN R_LAST_COLUMN) = true) by (destruct rows, cols; reflexivity).
+  unfold inline_code. rewrite c_spans_parts, !forallb_app. rewrite forallb_app in HD. apply andb_true_iff in HD. destruct HD as [HD1 HD2]. rewrite HD1, HD2.
+  destruct rf; rewrite ?forallb_app, HR, HC; destruct n; cbn; reflexivity.
 Qed.
 Lemma c_ops_no_routine (c : bool) ops : simple_ops mt c ops = true -> forallb not_routine (c_ops rt mt false (cmd_op c) ops) = true.
 Proof.
